@@ -232,6 +232,18 @@ func init() {
 					c.MkdirFaultAt = append(c.MkdirFaultAt, 20+r.Intn(len(c.Ops)-20))
 				}
 			}
+			if len(c.World.Roots) >= 2 && idx%4 == 0 {
+				// an operator takes a root out of the configuration: from the next reopen on nothing
+				// new may be put there (what it holds stays readable and is collected as usual)
+				at := len(c.Ops)/3 + r.Intn(len(c.Ops)/3)
+				drop := Op{K: "reopen", N: 1 + r.Intn(len(c.World.Roots))}
+				c.Ops = append(c.Ops[:at], append([]Op{{K: "drain"}, drop}, c.Ops[at:]...)...)
+				for i := range c.MkdirFaultAt {
+					if c.MkdirFaultAt[i] >= at {
+						c.MkdirFaultAt[i] += 2
+					}
+				}
+			}
 			c.World.MaxDirCount = []uint64{0, 1, 50, 99, 100, 100, 101, 150}[r.Intn(8)]
 			c.World.RootStyle = []int{0, 0, 1, 2, 3}[r.Intn(5)] // roots as an operator might spell them
 			for i := range c.Ops {
@@ -292,10 +304,17 @@ func genC09Readers(r *simrt.Rand) ConcCase {
 		}
 		for i := 0; i < 3+r.Intn(4); i++ {
 			k := "get"
-			if r.Intn(4) == 0 {
+			switch r.Intn(6) {
+			case 0:
 				k = "getr"
+			case 1, 2:
+				k = "keys" // the key listing goes from the version lists to the content records, too
 			}
-			rd = append(rd, Op{K: k, Tx: tx, Key: hot})
+			if k == "keys" {
+				rd = append(rd, Op{K: k, Tx: tx})
+			} else {
+				rd = append(rd, Op{K: k, Tx: tx, Key: hot})
+			}
 			if r.Intn(3) == 0 {
 				rd = append(rd, Op{K: "yield", N: r.Intn(20)})
 			}
@@ -407,6 +426,38 @@ func (p propC14) Gen(r *simrt.Rand, idx int, tier string) any {
 		c.Prop, c.Walk = "C14", true
 		return C14Case{Conc: &c}
 	}
+	if idx%100 == 9 {
+		// one transaction leaves more than a thousand contents behind at once: rolled back, refused,
+		// or committed after overwriting its own writes (lists longer than any batch size the
+		// clean-up might use)
+		c := SeqCase{Prop: "C14", ReadBack: "none", Walk: "final"}
+		c.Sched = SchedSpec{Seed: r.Uint64(), Strategy: "seqbg", MaxSteps: 20_000_000}
+		c.World = genWorldSpec(r)
+		c.Keys = []string{"live"}
+		c.Ops = append(c.Ops, Op{K: "set", Key: "live", ID: 1, Size: 20}, Op{K: "begin", Tx: 1, Level: r.Intn(4)})
+		n := 1001 + r.Intn(1600)
+		nk := n
+		if r.Intn(2) == 0 {
+			nk = 1 + r.Intn(40) // few keys, overwritten again and again inside the transaction
+		}
+		for i := 0; i < nk && i < 60; i++ {
+			c.Keys = append(c.Keys, fmt.Sprintf("big-%04d", i))
+		}
+		for i := 0; i < n; i++ {
+			c.Ops = append(c.Ops, Op{K: "set", Tx: 1, Key: fmt.Sprintf("big-%04d", i%nk), ID: uint64(10 + i), Size: 9 + i%7})
+		}
+		switch r.Intn(3) {
+		case 0:
+			c.Ops = append(c.Ops, Op{K: "rollback", Tx: 1})
+		case 1:
+			c.Ops = append(c.Ops, Op{K: "commit", Tx: 1})
+		default:
+			// a conflicting autocommit write first: at RepeatableRead/Serializable the commit is refused
+			c.Ops = append(c.Ops, Op{K: "set", Key: "big-0000", ID: 5, Size: 30}, Op{K: "commit", Tx: 1})
+		}
+		c.Ops = append(c.Ops, Op{K: "drain"})
+		return C14Case{Seq: &c}
+	}
 	c := p.seqProp.gen(r, idx, tier)
 	if idx%8 == 1 && simGrpcAvailable() {
 		// the same histories through the external client: every handler's context ends when its
@@ -466,6 +517,17 @@ func (s *seqRun) walkShape(i int, o Op) {
 		s.fail("dir-shape", "layout", fmt.Sprintf("after step %d (%s): %s", i, o, strings.Join(odd, "; ")))
 		return
 	}
+	for i, root := range s.w.Roots {
+		if !s.w.Dropped[i] {
+			continue
+		}
+		for _, f := range files {
+			if f.Root == root && !s.droppedFiles[f.Path] {
+				s.fail("dir-shape", "outside-configured-roots", fmt.Sprintf("after step %d (%s): %s was created under %s, which is no longer a configured root", i, o, f.Path, root))
+				return
+			}
+		}
+	}
 	isWrite := o.K == "set" || o.K == "setr" || o.K == "create"
 	if isWrite && o.Key != "" {
 		s.probes["writes"]++
@@ -473,7 +535,10 @@ func (s *seqRun) walkShape(i int, o Op) {
 		for d := range dirs {
 			perRoot[filepath.Dir(d)]++
 		}
-		for _, root := range s.w.Roots {
+		for ri, root := range s.w.Roots {
+			if s.w.Dropped[ri] {
+				continue
+			}
 			if perRoot[root] == 0 {
 				s.fail("dir-shape", "root-without-dir", fmt.Sprintf("after step %d (%s): root %s offers no directory", i, o, root))
 				return
